@@ -58,6 +58,12 @@ def inputs(ctx):
         for f in ("SAMI", "DFXP"):
             ins.append({"id": "g%d" % n, "k": f, "set": s})
             n += 1
+        # the two other DFXP writers merge captions of ONE language that share start and end; sets
+        # without such captions come out of them language by language like out of DFXPWriter
+        if n % 3 == 0 and all(len({(q["t"], q["e"]) for q in l["cues"]}) == len(l["cues"]) for l in s):
+            for w in ("single", "legacy"):
+                ins.append({"id": "g%d" % n, "k": "DFXP", "writer": w, "set": s})
+                n += 1
         if n % 7 == 0:
             for l in s:
                 if l["cues"]:
@@ -80,6 +86,23 @@ def inputs(ctx):
         if k % 5 == 0:
             ins.append({"id": "ro%d" % k, "k": "option", "via": rng.choice(["vtt", "force", "reader"]), "set": s,
                         "name": rng.choice(s)["lang"]})
+    # translations: every language has its cues at the same times (and the last cue of one language
+    # may coincide with the first of the next)
+    for nl in (2, 3, 4):
+        for nc in (1, 2, 3):
+            for shape in ("aligned", "staggered"):
+                s = []
+                x = 0
+                for li in range(nl):
+                    cues = []
+                    for j in range(nc):
+                        x += 1
+                        t0 = 1000 + 2000 * (j + (li if shape == "staggered" else 0) * (nc - 1))
+                        cues.append({"t": t0, "e": t0 + 1500, "x": x})
+                    s.append({"lang": list(CODES.values())[li], "cues": cues})
+                for f, w in (("SAMI", None), ("DFXP", None), ("DFXP", "single"), ("DFXP", "legacy")):
+                    ins.append(dict({"id": "tr%d" % n, "k": f, "set": s}, **({"writer": w} if w else {})))
+                    n += 1
     # every reader that takes lang= files the cues under exactly that tag, whatever its (well-formed)
     # shape; force= on each of the three DFXP writers
     shapes = ["es-419", "en-001", "de-CH-1996", "sl-rozaj", "ca-valencia", "en-x-caption", "zh-Hant-TW", "und", "fr", "pt-BR",
@@ -220,7 +243,9 @@ def execute(inp):
                                         "ps": [{"lang": p["class"] or "", "x": _x("".join(p["lines"]))} for p in sy["ps"]]})
                 rec["read"] = _read_proj(pycaption.SAMIReader().read(out))
             else:
-                out = pycaption.DFXPWriter().write(cs)
+                from pycaption.dfxp.extras import LegacyDFXPWriter, SinglePositioningDFXPWriter
+                W = {None: pycaption.DFXPWriter, "single": SinglePositioningDFXPWriter, "legacy": LegacyDFXPWriter}[inp.get("writer")]
+                out = W().write(cs)
                 root, err = scan.parse_xml_strict(out)
                 d = scan.scan_dfxp(root)
                 for dv in d["divs"]:
